@@ -269,6 +269,9 @@ def cases(tier, seed):
             out.append({"id": "%s:%dx%d" % (tool, nx, ny), "kind": tool,
                         "nx": nx, "ny": ny, "tier": tier})
     out.append({"id": "bg:refusals", "kind": "bgrefuse", "tier": tier})
+    for (nx, ny) in ((4, 5), (3, 3)):
+        out.append({"id": "bg:camera-counts:%dx%d" % (nx, ny),
+                    "kind": "bgcounts", "nx": nx, "ny": ny, "tier": tier})
     # zero_filter pairs on 5x6: one case per first position
     for p in range(30):
         if _partners(p):
@@ -510,6 +513,43 @@ def _run_bg(case, ck):
                             "(max |out-1| = %.3g)" %
                             (what, np.abs(o - 1.0).max()))
                 acc.append(np.round(o, 9))
+    return digest(*acc)
+
+
+def _run_bgcounts(case, ck):
+    """raw camera counts (unsigned integers): the formula holds as for real
+    numbers, also where the raw frame is darker than the dark frame"""
+    from holopy.core.process import bg_correct
+    nx, ny = case["nx"], case["ny"]
+    i, j = np.mgrid[0:nx, 0:ny]
+    acc = []
+    for dt in ("uint8", "uint16", "int16"):
+        rawv = (10 + (7 * i + 3 * j) % 23).astype(dt)      # 10..32
+        bgv = (100 + (5 * i + j) % 50).astype(dt)          # 100..149
+        dkv = (12 + (i + 2 * j) % 9).astype(dt)            # 12..20
+        for dark in (True, False):
+            what = "bg_correct(%s counts, dark=%s, %dx%d)" % (dt, dark, nx,
+                                                              ny)
+            raw, bg, df = _mk(rawv), _mk(bgv, name="bg"), _mk(dkv,
+                                                            name="dark")
+            out = _t(what, bg_correct, raw, bg, df) if dark else \
+                _t(what, bg_correct, raw, bg)
+            ck.trans += 1
+            o = np.asarray(out.values, dtype=float)
+            d = dkv.astype(float) if dark else 0.0
+            ref = (rawv.astype(float) - d) / (bgv.astype(float) - d)
+            if not ck.true("bg-shape", o.shape == (1, nx, ny),
+                           "%s: shape %r" % (what, o.shape)):
+                continue
+            e = float(np.abs(o[0] - ref).max() / np.abs(ref).max())
+            ck.metric("bg-formula", e)
+            ck.true("bg-formula", e <= TOLERANCES["bg-formula"],
+                    "%s: differs from (raw-dark)/(bg-dark) by %.3g (e.g. "
+                    "%r instead of %r)" %
+                    (what, e, float(o[0].ravel()[int(np.argmax(np.abs(
+                        o[0] - ref)))]), float(ref.ravel()[int(np.argmax(
+                            np.abs(o[0] - ref)))])))
+            acc.append(np.round(o, 9))
     return digest(*acc)
 
 
@@ -1137,6 +1177,7 @@ def run_case(case):
         return ck.result(fp=fp, outcome=outcome)
     try:
         fp = {"normalize": _run_normalize, "bg": _run_bg,
+              "bgcounts": _run_bgcounts,
               "subimage": _run_subimage, "zero1": _run_zero1,
               "zero2": _run_zero2, "detrend": _run_detrend,
               "acc": _run_acc, "accrep": _run_accrep,
